@@ -1139,6 +1139,9 @@ def _sv_method(ip, s, name, args, kw):
         sp = ip.reg.get_spec('hexlify_s')
         return M.call_spec(ip, sp, [s], {})
     if name == 'decode' and s.kind == 'bytes':
+        e0_ = simp(s.e)
+        if z3.is_app(e0_) and e0_.decl().name() == 'b64enc':
+            return SV(e0_, 'str')           # base64 text is ASCII
         sp = ip.reg.get_spec('ascii_decode', optional=True)
         if sp is None:
             raise Unsupported("bytes.decode")
@@ -1154,6 +1157,16 @@ def _sv_method(ip, s, name, args, kw):
         return SV(simp(z3.IndexOf(s.e, lift(args[0], s.kind).e, 0)), 'int')
     if name == 'count':
         raise Unsupported("count on symbolic sequence")
+    if name in ('strip', 'rstrip') and not args:
+        pl = _M().seq_peel_last(s.e)
+        if pl is not None and z3.is_int_value(pl[1][0]) and pl[1][0].as_long() == 10:
+            a0 = simp(pl[0])
+            if z3.is_app(a0) and a0.decl().name() == 'b64enc':
+                return SV(a0, s.kind)      # base64 text carries no white space: strip() removes exactly the line break
+    if name == 'decode' and s.kind == 'bytes':
+        e_ = simp(s.e)
+        if z3.is_app(e_) and e_.decl().name() == 'b64enc':
+            return SV(e_, 'str')           # base64 text is ASCII
     if name in ('lower', 'upper', 'strip', 'split', 'join', 'replace', 'rstrip', 'lstrip', 'format', 'isdigit', 'rfind', 'zfill', 'ljust', 'rjust'):
         sp = ip.reg.get_spec('str_' + name, optional=True)
         if sp is None:
@@ -1239,3 +1252,46 @@ def int_from_bytes_model(ip, args, kw):
 
 
 _B[int.from_bytes] = int_from_bytes_model
+
+
+# ---------------------------------------------------------------- base64 (string idiom: uninterpreted codec with its inverse law)
+import binascii as _binascii
+
+
+def _b64_fns():
+    return (z3.Function('b64enc', IntSeq, IntSeq), z3.Function('b64dec', IntSeq, IntSeq), z3.Function('b64_ok', IntSeq, z3.BoolSort()))
+
+
+def b64_encode_sv(ip, data):
+    """abstract base64 text (ASCII, no line break) of the bytes `data`, with the decode-inverse law"""
+    enc, dec, ok = _b64_fns()
+    d = lift(data, 'bytes').e
+    t = enc(d)
+    ip.st.assume_def(z3.And(dec(t) == d, ok(t)))
+    return t
+
+
+@builtin(_binascii.b2a_base64)
+def _b2a_base64(ip, args, kw):
+    v = args[0]
+    if isinstance(v, Loc):
+        v = ip.seq_view(v)
+    if not has_sym(v):
+        return native_call(ip, _binascii.b2a_base64, [v], kw)
+    if kw.get('newline', True) is False:
+        return SV(b64_encode_sv(ip, v), 'bytes')
+    return SV(z3.Concat(b64_encode_sv(ip, v), z3.Unit(z3.IntVal(10))), 'bytes')
+
+
+@builtin(_binascii.a2b_base64)
+def _a2b_base64(ip, args, kw):
+    v = args[0]
+    if not has_sym(v):
+        return native_call(ip, _binascii.a2b_base64, [v], kw)
+    enc, dec, ok = _b64_fns()
+    t = lift(v).e
+    if not ip.st.branch(ok(t), "text is valid base64"):
+        ip.raise_(_binascii.Error, "Incorrect padding / non-base64 text")
+    r = SV(dec(t), 'bytes')
+    _M().typing_facts(ip, r)
+    return r
